@@ -69,6 +69,12 @@ func trafficEntries(p *core.Prog, wide bool) []*ssa.Function {
 			if rel != "openapi3filter" {
 				continue
 			}
+			if rv := fn.Signature.Recv(); rv != nil {
+				// methods of unexported types cannot be called by a user
+				if n := core.NamedOf(rv.Type()); n == nil || !n.Obj().Exported() {
+					continue
+				}
+			}
 			n := fn.Name()
 			if strings.HasPrefix(n, "Register") || strings.HasPrefix(n, "Unregister") || strings.HasPrefix(n, "New") || strings.HasPrefix(n, "Must") {
 				continue
